@@ -162,7 +162,7 @@ def run(ctx):
         ra, rb = e2e.run_real(a, fin, strict), e2e.run_real(b, fin, strict)
         inp = {"src": a, "twin": b, "kind": kind, "rename": ren, "opts": {"fin": fin, "strict": strict}}
         if ra["exc"] or rb["exc"]:
-            if "ParseError" in ((ra["exc"] or [None])[0], (rb["exc"] or [None])[0]):
+            if {"ParseError", "Timeout"} & {(ra["exc"] or [None])[0], (rb["exc"] or [None])[0]}:
                 return
             failing.append({"what": f"raise: {kind}: {ra['exc']} / {rb['exc']}", "sig": ["C12", "raise", kind], "input": inp})
             return
